@@ -91,14 +91,14 @@ func runC01(t fataler, c c01Case) (string, c01Result) {
 	defer e.Teardown()
 	ctx := context.Background()
 	type dir struct {
-		name  string
-		from  *websocket.Conn
-		to    *websocket.Conn
-		ops   []outOp
-		werr  string
-		rerr  string
-		wdone <-chan struct{}
-		rdone <-chan struct{}
+		name   string
+		from   *websocket.Conn
+		to     *websocket.Conn
+		ops    []outOp
+		werr   string
+		rerr   string
+		wdone  <-chan struct{}
+		rdone  <-chan struct{}
 		all    chan struct{} // closed when every expected message has been read
 		extra  string
 		endErr error // what the final Read (the one that sees the end of the connection) returned
